@@ -257,7 +257,7 @@ def check_table(case, part):
 
 
 # ---- chains -------------------------------------------------------------------------------
-CHAIN_OPS = ["copy", "wrap_K", "idx_rev", "idx_first2", "idx_mask_alt", "packunpack", "hdf5"]
+CHAIN_OPS = ["copy", "wrap_K", "idx_rev", "idx_first2", "idx_mask_alt", "packunpack", "hdf5", "q_t0", "q_orbit", "set_M0", "set_P"]
 
 
 def apply_op(op, s, m, scratch):
@@ -266,6 +266,8 @@ def apply_op(op, s, m, scratch):
     import thejoker as tj
 
     n = len(m)
+    import astropy.units as u  # noqa: F811
+
     if op == "copy":
         return s.copy(), m.copy()
     if op == "wrap_K":
@@ -282,6 +284,23 @@ def apply_op(op, s, m, scratch):
         packed, units = s.pack(units=dict(own), nonlinear_only=False)
         tr = None if m.t_ref is None else Time(m.t_ref, format="mjd", scale="tcb")
         return tj.JokerSamples.unpack(packed, units, t_ref=tr, poly_trend=m.poly_trend, n_offsets=m.n_offsets), m.copy()
+    if op == "q_t0":  # pure queries: must not change the state, and must not poison later answers
+        _queries(s, m)
+        return s, m
+    if op == "q_orbit":
+        if m.t_ref is not None:
+            for i in range(n):
+                impl_curve(s, i, TGRID[:3])
+        return s, m
+    if op in ("set_M0", "set_P"):
+        name = op[4:]
+        v, un = m.cols[name]
+        nv = v * 0.5 + (0.125 if name == "M0" else 1.0)
+        s[name] = nv * (u.Unit(un) if un else u.one)
+        m2 = m.copy()
+        m2.cols[name] = (nv, un)
+        # __setitem__ on an existing column keeps the column order
+        return s, m2
     if op == "hdf5":
         path = os.path.join(scratch, "c17-%d.hdf5" % os.getpid())
         s.write(path, overwrite=True)
@@ -289,6 +308,25 @@ def apply_op(op, s, m, scratch):
         os.unlink(path)
         return r, m.copy()
     raise KeyError(op)
+
+
+def _queries(s, m):
+    """answers of the read-only queries, as plain numbers"""
+    import astropy.units as u
+    from astropy.time import Time
+
+    out = {}
+    kw = {} if m.t_ref is not None else dict(t_ref=Time(TREF, format="mjd", scale="tcb"))
+    out["t0"] = np.atleast_1d(s.get_t0(**kw).tcb.mjd).tolist()
+    out["t_phase"] = np.atleast_1d(s.get_time_with_phase(1.3 * u.rad, **kw).tcb.mjd).tolist()
+    if m.t_ref is None:
+        kw2 = dict(t_ref=Time(TREF + 3.5, format="mjd", scale="tcb"))
+        out["t0_other_ref"] = np.atleast_1d(s.get_t0(**kw2).tcb.mjd).tolist()
+    out["packed"] = s.pack()[0].tolist()
+    out["median_P"] = np.atleast_1d(s.median_period()["P"].value).tolist()
+    if m.t_ref is not None and "K" in m.cols:
+        out["curve0"] = impl_curve(s, 0, TGRID[:3]).tolist()
+    return out
 
 
 def check_chain(case, part):
@@ -314,6 +352,17 @@ def check_chain(case, part):
         if d:
             part.violation(dict(case, chain=list(hist)), f"state after {hist} differs from the same table built directly: " + d)
             return
+        # differential oracle on the read-only queries: same answers as a freshly built object in the same state
+        try:
+            qa, qb = _queries(s, m), _queries(direct, m)
+        except Exception as e:
+            part.violation(dict(case, chain=list(hist)), f"query after {hist} raised {type(e).__name__}: {e}")
+            return
+        for k in qa:
+            if not np.allclose(np.array(qa[k], dtype=float), np.array(qb[k], dtype=float), rtol=1e-12, atol=1e-9):
+                part.violation(dict(case, chain=list(hist)), f"after {hist}: query {k} answers differently than on a freshly built table in the same state",
+                               expected=qb[k], observed=qa[k])
+                return
     part.record(case, outcome=m.key(), nontrivial=len(set(case["chain"])) > 1)
 
 
@@ -363,7 +412,8 @@ def main():
         "(rotated) x angle unit x K unit x P unit x metadata (t_ref None/Time, poly_trend 1..3, n_offsets 0..2): wrap_K, "
         "get_t0/get_time_with_phase (4 phases x 2 units), pack/unpack, every int/slice/mask/int-list/name-list index, copy, "
         "mean, std, median_period vs a reference table model and the reference Kepler curve; chains of depth<=3 (4) over "
-        "{copy, wrap_K, 3 index ops, pack/unpack, HDF5 round trip}. Non-trivial: some K<0 (tables); chain mixes operations.",
+        "{copy, wrap_K, 3 index ops, pack/unpack, HDF5 round trip, read-only queries, column replacement} with a differential oracle (every "
+        "read-only query answers as on a freshly built table in the same state). Non-trivial: some K<0 (tables); chain mixes operations.",
     )
     cases, chains = build_cases(chk.quick, chk.seed)
     chk.bounds = {"tables": len(cases), "chains": len(chains), "chain_depth": 3 if chk.quick else 4}
